@@ -503,7 +503,7 @@ func (b *vfBrowser) StartLogin(rep *vfReplica, target string, user string) (*vfL
 		return nil, resp
 	}
 	u, err := url.Parse(resp.Location())
-	if err != nil || u.Host != vfIdpHost {
+	if err != nil || u.Host != b.w.idp.host {
 		return nil, resp
 	}
 	lg := &vfLogin{StartResp: resp, AuthURL: u, AuthQ: u.Query(), State: u.Query().Get("state")}
